@@ -192,7 +192,8 @@ func (k Keeper) GetSumOfAllGroupVotesAllRounds(ctx context.Context, id uint64) (
 	// process current dispute
 	voteCounts, err := k.VoteCountsByGroup.Get(ctx, id)
 	if err != nil {
-		return math.ZeroInt(), nil
+		// nobody voted in this round; votes of earlier rounds still count
+		voteCounts = types.StakeholderVoteCounts{}
 	}
 	processVoteCounts(voteCounts)
 
